@@ -32,6 +32,30 @@ fn maxdiff(a: &[f64], b: &[f64]) -> f64 {
     a.iter().zip(b).fold(0.0f64, |m, (x, y)| if (x - y).is_nan() { f64::INFINITY } else { m.max((x - y).abs()) })
 }
 
+/// Largest amplification (output change / input change) of the reference integrator observed for
+/// perturbations in 3 directions applied at the start, after a third and after two thirds of the
+/// trajectory: (largest absolute output change for the start perturbations, largest gain).
+fn amplification(t: &GTarget, x: &[f64], p: &[f64], eps: f64, l: usize, eps_b: f64) -> (f64, f64) {
+    let (rx, rp) = ref_leapfrog(t, x, p, eps, l);
+    let mut amp0 = 0.0f64;
+    let mut gain = 1.0f64;
+    for (k, salt) in [(0usize, 11u64), (0, 13), (0, 19), (l / 3, 41), (l / 3, 43), (2 * l / 3, 47), (2 * l / 3, 53)] {
+        if k > 0 && k >= l {
+            continue;
+        }
+        let (mx, mp) = ref_leapfrog(t, x, p, eps, k);
+        let (px, pp) = (perturb(&mx, 4.0 * eps_b, salt), perturb(&mp, 4.0 * eps_b, salt + 6));
+        let (ex, ep) = ref_leapfrog(t, &px, &pp, eps, l - k);
+        let out = maxdiff(&rx, &ex).max(maxdiff(&rp, &ep));
+        let inp = 4.0 * eps_b * (maxabs(&mx).max(maxabs(&mp)) + 1e-3);
+        if k == 0 {
+            amp0 = amp0.max(out);
+        }
+        gain = gain.max(out / inp);
+    }
+    (if amp0.is_nan() { f64::INFINITY } else { amp0 }, if gain.is_nan() { f64::INFINITY } else { gain })
+}
+
 fn tvals<B: Backend, const D: usize>(t: &Tensor<B, D>) -> Vec<f64> {
     t.to_data().convert::<f64>().to_vec::<f64>().unwrap()
 }
@@ -142,20 +166,20 @@ where
             }
             // (i) proposal vs reference integrator, condition-aware
             let (rx, rp) = ref_leapfrog(&target, x, p, eps_used, l);
-            let (rx2, rp2) = ref_leapfrog(&target, &perturb(x, 4.0 * eps_b, 11), &perturb(p, 4.0 * eps_b, 17), eps_used, l);
-            let amp = maxdiff(&rx, &rx2).max(maxdiff(&rp, &rp2));
+            let (amp, gain) = amplification(&target, x, p, eps_used, l, eps_b);
             let scale = maxabs(&rx).max(maxabs(&rp)).max(maxabs(x)).max(1.0);
-            // three parts: amplified input rounding (shadow trajectory), accumulated rounding of the
-            // updates, and the backend's own error in evaluating the gradient (cancellation inside the
-            // target is not visible to an input perturbation): delta g ~ 256 eps_b (|g| + 1) enters the
-            // momentum with eps and the position with eps^2 at every step
+            // three parts: amplified input rounding (shadow trajectories), accumulated rounding of the
+            // updates, and the backend's own error in evaluating the gradient, which enters the momentum
+            // with eps and the position with eps^2 at every step and is amplified by the remaining steps.
+            // The f32 NdArray backend divides with an approximate, alignment-dependent reciprocal: the
+            // gradient of log() was observed to vary by 3e-5 relative between two evaluations of the same
+            // input in one process, hence the large f32 coefficient.
             let gmax = ref_leapfrog_gmax(&target, x, p, eps_used, l);
-            // an error injected at one step is amplified by the remaining steps: use the measured
-            // end-to-end amplification factor of the trajectory for every injection
-            let gain = (amp / (4.0 * eps_b * (maxabs(x).max(maxabs(p)) + 1e-3))).max(1.0);
-            // (constants: a single shadow direction under-estimates the growth of chaotic large-step
-            // trajectories by a small factor; observed errors reached 1.07 x the 32-fold bound, hence 256)
-            let tol = 256.0 * (l as f64 + 1.0) * amp + 256.0 * eps_b * scale * (l as f64 + 1.0) + 2048.0 * eps_b * (gmax + 1.0) * eps_used.abs() * (1.0 + eps_used.abs()) * (l as f64 + 1.0) * gain;
+            let gcoef = if eps_b > 1e-10 { 8192.0 } else { 2048.0 };
+            let tol = 256.0 * (l as f64 + 1.0) * amp + 256.0 * eps_b * scale * (l as f64 + 1.0) + gcoef * eps_b * (gmax + 1.0) * eps_used.abs() * (1.0 + eps_used.abs()) * (l as f64 + 1.0) * gain;
+            // chaotic trajectories (perturbations grow by more than 1000 x): "up to rounding" cannot be
+            // decided there; counted, not judged
+            let chaotic = gain > 1e3;
             // beyond the square root of the backend's largest number squares overflow in the backend
             // even where the f64 reference is finite: treated as "reference overflowed"
             let big = if eps_b > 1e-10 { 1e17 } else { 1e150 };
@@ -168,7 +192,7 @@ where
                     o.violate("moved_to_nonfinite", &format!("{site}:accepted-non-finite-proposal"), format!("step {step} chain {c}: accepted a proposal {xp:?} with log-density {}", lp1[c]));
                     break;
                 }
-            } else if tol < 0.05 * scale {
+            } else if tol < 0.05 * scale && !chaotic {
                 let ex = maxdiff(&rx, xp);
                 let ep = maxdiff(&rp, pp);
                 if ex > tol || ep > tol {
@@ -211,7 +235,7 @@ where
             }
             // energy of the reference: H' consistent with the traced one (catches a wrong kinetic term only
             // through the decision above; here the potential term)
-            if ref_finite && tol < 0.05 * scale {
+            if ref_finite && tol < 0.05 * scale && !chaotic {
                 let dlp = (lp1[c] - lp1_ref).abs();
                 let lp_tol = 64.0 * (target.logp(&perturb(&rx, 4.0 * eps_b, 29)) - lp1_ref).abs() + 64.0 * maxabs(&target.grad(&rx)) * tol + 512.0 * eps_b * (lp1_ref.abs() + 1.0);
                 if dlp > lp_tol {
@@ -249,14 +273,19 @@ where
                     }
                     let negp: Vec<f64> = pp.iter().map(|v| -v).collect();
                     let (rx, rp) = ref_leapfrog(&target, xp, &negp, eps_used, l);
-                    let (rx2, rp2) = ref_leapfrog(&target, &perturb(xp, 4.0 * eps_b, 31), &perturb(&negp, 4.0 * eps_b, 37), eps_used, l);
-                    let amp = maxdiff(&rx, &rx2).max(maxdiff(&rp, &rp2));
+                    let (amp, gain_back) = amplification(&target, xp, &negp, eps_used, l, eps_b);
+                    let (_, gain_fwd) = amplification(&target, x, p, eps_used, l, eps_b);
+                    let gain = gain_back.max(gain_fwd);
                     let scale = maxabs(x).max(maxabs(p)).max(maxabs(xp)).max(1.0);
                     let goal = maxabs(x).max(maxabs(p)).max(1.0); // what the way back has to reproduce
                     let gmax = ref_leapfrog_gmax(&target, xp, &negp, eps_used, l);
+                    let gcoef = if eps_b > 1e-10 { 32768.0 } else { 8192.0 };
                     // forward error is also present in (x', p'): the way back amplifies it once more
-                    let gain = (amp / (4.0 * eps_b * (maxabs(xp).max(maxabs(pp)) + 1e-3))).max(1.0);
-                    let tol = 512.0 * (l as f64 + 1.0) * amp + 1024.0 * eps_b * scale * (l as f64 + 1.0) + 8192.0 * eps_b * (gmax + 1.0) * eps_used.abs() * (1.0 + eps_used.abs()) * (l as f64 + 1.0) * gain;
+                    let tol = 512.0 * (l as f64 + 1.0) * amp + 1024.0 * eps_b * scale * (l as f64 + 1.0) * gain + gcoef * eps_b * (gmax + 1.0) * eps_used.abs() * (1.0 + eps_used.abs()) * (l as f64 + 1.0) * gain;
+                    if gain > 1e3 {
+                        o.count("not_judged_ill_conditioned", 1);
+                        continue;
+                    }
                     let big = if eps_b > 1e-10 { 1e17 } else { 1e150 };
                     if !(tol < 0.05 * goal) || !rx.iter().chain(rp.iter()).all(|v| v.is_finite() && v.abs() < big) {
                         o.count("not_judged_ill_conditioned", 1);
@@ -302,16 +331,24 @@ where
                     continue;
                 }
                 let start: Vec<f64> = init[c].iter().map(|v| num_traits::ToPrimitive::to_f64(v).unwrap()).collect();
-                // either both runs kept the start (bitwise) or both moved to (nearly) the same point
+                // either both runs kept the start (bitwise) or both moved to (nearly) the same point.
+                // "Nearly": the f32 backend's gradient is not even repeatable for identical inputs
+                // (approximate reciprocal, see above: 3e-5 relative), and the trajectory amplifies that
+                // by its gain; chaotic rows are skipped. A real leak between rows is of order one.
                 let kept = |r: &[f64]| r.iter().zip(start.iter()).all(|(x, y)| x.to_bits() == y.to_bits());
                 let sc = maxabs(ra).max(maxabs(&start)).max(1.0);
-                let close = maxdiff(ra, rb) <= 4096.0 * eps_b * sc * (l0 as f64 + 1.0);
-                if kept(ra) != kept(rb) || !close {
-                    // a decision that sits on the rounding edge may flip: only a macroscopic difference counts
-                    if maxdiff(ra, rb) > 1e-2 * sc && kept(ra) == kept(rb) {
-                        o.violate("rows_interact", &format!("{site}:rows-influence-one-another"), format!("changing the start of chain {victim} changed the result of chain {c} from {ra:?} to {rb:?} (same momenta and acceptance draws)"));
-                        break;
-                    }
+                let mom_c: Vec<f64> = vec![1.0; d]; // representative momentum scale for the gain estimate
+                let (_, gain) = amplification(&target, &start, &mom_c, num_traits::ToPrimitive::to_f64(&eps_t0).unwrap(), l0, eps_b);
+                if gain > 1e3 {
+                    o.count("row_independence_chaotic_row_skipped", 1);
+                    continue;
+                }
+                let noise = if eps_b > 1e-10 { 1e-3 } else { 1e-9 };
+                if kept(ra) == kept(rb) && maxdiff(ra, rb) > (noise * gain).max(1e-2) * sc {
+                    o.violate("rows_interact", &format!("{site}:rows-influence-one-another"), format!("changing the start of chain {victim} changed the result of chain {c} from {ra:?} to {rb:?} (same momenta and acceptance draws)"));
+                    break;
+                }
+                if maxdiff(ra, rb) > 0.0 {
                     o.count("row_independence_rounding_level_difference", 1);
                 }
             }
@@ -331,6 +368,10 @@ where
 
 struct HmcSteps;
 impl Scenario for HmcSteps {
+    fn recheckable(&self, p: &Value) -> bool {
+        // f32 gradients of the NdArray backend are not repeatable bit for bit (see Scenario::recheckable)
+        ps(p, "float") != "f32"
+    }
     fn name(&self) -> &'static str {
         "hmc_steps"
     }
